@@ -3,6 +3,7 @@ module verifharness
 go 1.22
 
 require (
+	github.com/golang/protobuf v1.4.3
 	github.com/hashicorp/memberlist v0.2.2
 	github.com/prometheus/client_model v0.2.0
 	github.com/vx-labs/commitlog v1.2.4
@@ -20,7 +21,6 @@ require (
 	github.com/coreos/pkg v0.0.0-20180928190104-399ea9e2e55f // indirect
 	github.com/dustin/go-humanize v1.0.0 // indirect
 	github.com/gogo/protobuf v1.2.1 // indirect
-	github.com/golang/protobuf v1.4.3 // indirect
 	github.com/google/btree v1.0.0 // indirect
 	github.com/google/uuid v1.1.2 // indirect
 	github.com/gorilla/websocket v1.4.1 // indirect
